@@ -388,6 +388,12 @@ class ExprMixin(object):
             yield st, self.str_concat(a, b)
             return
         # tuples / lists
+        if opn == "Add" and isinstance(a, Sym) and isinstance(b, Sym) and a.kind in ("shape", "tuplen") and b.kind in ("shape", "tuplen"):
+            # concatenation of shape tuples: only the length is tracked
+            la = self.rank(a.t) if a.kind == "shape" else a.t
+            lb = self.rank(b.t) if b.kind == "shape" else b.t
+            yield st, Sym("tuplen", la + lb)
+            return
         if opn == "Add" and isinstance(a, TupleV) and isinstance(b, TupleV):
             yield st, TupleV(a.items + b.items)
             return
@@ -457,6 +463,11 @@ class ExprMixin(object):
             return Sym("num", z3.If(c, num_term(a), num_term(b)), ii)
         if isinstance(a, Sym) and isinstance(b, Sym) and a.kind == b.kind:
             return Sym(a.kind, z3.If(c, a.t, b.t))
+        if (isinstance(a, Sym) and a.kind == "dyn") or (isinstance(b, Sym) and b.kind == "dyn"):
+            try:
+                return Sym("dyn", z3.If(c, self.to_dyn(None, a), self.to_dyn(None, b)))
+            except (Unsupported, AttributeError):
+                pass
         if self.is_str(a) and self.is_str(b):
             return Sym("str", z3.If(c, self.str_term(a), self.str_term(b)))
         if isinstance(a, TupleV) and isinstance(b, TupleV) and len(a.items) == len(b.items):
@@ -824,6 +835,10 @@ class ExprMixin(object):
                         yield r
 
     def unpack_star(self, st, sv):
+        if isinstance(sv, Sym) and sv.kind in ("shape", "tuplen"):
+            from .builtins_model import _StarSeq
+
+            return [_StarSeq(self.rank(sv.t) if sv.kind == "shape" else sv.t)]
         if isinstance(sv, TupleV):
             return list(sv.items)
         if isinstance(sv, Ref):
